@@ -182,10 +182,12 @@ def run(F, rep, tier="quick", extra=None, only=None):
     rep.floor("length computations", n_len, 14)
 
     check_unsafe_impls(F, rep)
+    check_by_value_moves(F, rep)
     check_alloc(F, rep)
     check_in_place_maps(F, rep)
     check_forwarders(F, rep)
     check_std_casts(F, rep)
+    check_luma_scalar_casts(F, rep)
     check_layout(F, rep, tier)
     return {"level": "other"}
 
@@ -193,6 +195,27 @@ def run(F, rep, tier="quick", extra=None, only=None):
 def _calls(F, b, tail):
     """does the body call a function whose path ends with `tail` (the forget-after-copy idiom is the other way to move out)"""
     return any(isinstance(n.get("c"), dict) and "d" in n["c"] and F.S[n["c"]["d"]].endswith(tail) for n, _p in facts.walk(b["body"]))
+
+
+def check_by_value_moves(F, rep):
+    """CAST-OWN (HIR form): a cast function that takes an owned colour / array *by value* and reads a bitwise copy out of it (ptr::read,
+    transmute_copy) must neutralise the original (ManuallyDrop::new or mem::forget) -- otherwise the argument is dropped on return and
+    every component has two owners.  Vec / Box arguments are moved through into_raw / from_raw_parts (CAST-2) and are not concerned."""
+    n = 0
+    for b in F.bodies:
+        if b["dk"] not in ("Fn", "AssocFn") or not b["path"].startswith(("cast::array::", "cast::uint::")) or "::test" in b["path"]:
+            continue
+        ins = [F.S[i] for i in b.get("ins", [])]
+        owned = [t for t in ins if not t.startswith(("&", "*")) and not re.match(r"^(std|alloc)::(vec::Vec|boxed::Box)<", t) and not t.startswith(("F", "impl ")) and t not in ("usize",)]
+        reads = [d for d in (F.S[x["c"]["d"]] for x, _p in facts.walk(b["body"]) if isinstance(x.get("c"), dict) and "d" in x["c"])
+                 if d.endswith(("ptr::read", "mem::transmute_copy", "ptr::read_unaligned")) or re.search(r"ptr::.*::read$", d)]
+        if not owned or not reads:
+            continue
+        n += 1
+        ok = _calls(F, b, "ManuallyDrop::<T>::new") or _calls(F, b, "mem::forget")
+        rep.ob("CAST-OWN", b["path"].replace("cast::", ""), ok,
+               "reads a bitwise copy (%s) out of an argument taken by value (%s) %s ManuallyDrop / forget" % (sorted(set(x.split("::")[-1] for x in reads)), owned[0], "under" if ok else "WITHOUT"), F.loc(b))
+    rep.floor("by-value casts that read a bitwise copy", n, 10)
 
 
 def check_unsafe_impls(F, rep):
@@ -600,6 +623,61 @@ def check_std_casts(F, rep):
                 ok, detail = False, "the slice view is not taken from the array view of the colour (call types %s)" % inner
         rep.ob("CAST-STD", key, ok, detail, F.loc(b), nontrivial=False)
     rep.floor("std conversion impls of macros/casting.rs", n, 552)
+
+
+# ------------------------------------------------------------------------------------------ CAST-LUMA
+LUMA_SCALARS = ("u8", "u16", "u32", "u64", "u128", "f32", "f64", "T")
+
+
+def check_luma_scalar_casts(F, rep):
+    """CAST-LUMA: a one-component colour casts to and from its bare scalar (luma/luma.rs): by reference through the [T; 1] array cast of the
+    same memory (slice::from_ref / from_mut, then the length-checked TryFrom of macros/casting.rs), by value through the `luma` field /
+    `Luma::new`; the reference-to-reference From impls are as_ref / as_mut.  Nothing else (no clone, no temporary) may appear."""
+    n = 0
+    for b in F.bodies:
+        im = b["_impl"]
+        if im is None or not b["file"].endswith("luma/luma.rs") or "::test" in b["path"] or b["dk"] not in ("Fn", "AssocFn"):
+            continue
+        tr = (im.get("trait") or "").split("::")[-1]
+        if tr not in ("AsRef", "AsMut", "From") or not im["trait_args_s"]:
+            continue
+        self_t, arg_t = im["self_s"], im["trait_args_s"][0]
+        strip = lambda t: re.sub(r"^&('\w+ )?(mut )?", "", t)
+        s0, a0 = strip(self_t), strip(arg_t)
+        is_luma = lambda t: t.startswith("luma::luma::Luma<")
+        if not ((is_luma(s0) and a0 in LUMA_SCALARS) or (is_luma(a0) and s0 in LUMA_SCALARS)):
+            continue
+        lt, sc = (s0, a0) if is_luma(s0) else (a0, s0)
+        m_ = re.match(r"^luma::luma::Luma<S(?:, (\w+))?>$", lt)
+        if not m_ or (m_.group(1) or "f32") != sc:
+            continue   # Luma<S, u8> <-> u16 is the packed form (C12 PACK-FWD)
+        mut = "mut " in self_t or "mut " in arg_t or tr == "AsMut"
+        byref = self_t.startswith("&") or tr in ("AsRef", "AsMut")
+        calls, fields, other = [], [], []
+        for node, _p in facts.walk(b["body"]):
+            c = node.get("c")
+            if isinstance(c, dict) and "d" in c:
+                calls.append(F.S[c["d"]].split("::")[-1])
+            elif node.get("k") == "field":
+                fields.append(node["n"])
+            elif node.get("k") not in ("path", "block", "ref", "un", "call", "mcall"):
+                other.append("<%s>" % node.get("k"))
+        calls.sort()
+        key = "%s<%s> for %s" % (tr, arg_t, self_t)
+        n += 1
+        if tr in ("AsRef", "AsMut") and is_luma(s0):
+            want, wf = [], ["luma"]                                     # &self.luma
+        elif tr in ("AsRef", "AsMut"):
+            want, wf = sorted(["from_mut" if mut else "from_ref", "try_into", "unwrap"]), []   # scalar -> &Luma through [T; 1]
+        elif byref:
+            want, wf = ["as_mut" if mut else "as_ref"], []
+        elif is_luma(s0):
+            want, wf = ["new"], []                                      # Luma::new(luma)
+        else:
+            want, wf = [], ["luma"]                                     # color.luma
+        ok = calls == want and fields == wf and not other
+        rep.ob("CAST-LUMA", key, ok, "calls %s fields %s%s; expected calls %s fields %s" % (calls, fields, (" " + " ".join(other)) if other else "", want, wf), F.loc(b), nontrivial=False)
+    rep.floor("Luma <-> scalar casts", n, 52)
 
 
 # ------------------------------------------------------------------------------------------ LAYOUT witness
